@@ -20,6 +20,7 @@ def plan(*parts):
 PLANS = {
     "C01": plan(shards(20, 240)),
     "C02": plan(shards(20, 240)),
+    "C03": plan(shards(20, 240)),
     "C05": plan(shards(20, 240)),
     "C08": plan(shards(20, 240)),
     "C13": plan(shards(20, 240)),
